@@ -38,15 +38,21 @@ package connectconformance
 //@ func parsePatterns
 //@   ensures (len(patterns) == 0) == (result == nil)
 
+// What is inserted for a pattern is exactly its components between slashes (the same split
+// that is applied to test names), nothing trimmed or rewritten: trieLastAdd[t] is a ghost
+// recording the component sequence most recently handed to t.add.
+//@ ghost trieLastAdd: *testTrie -> []string
 //@ func (*testTrie).addPattern
 //@   requires tt != nil
-//@   modifies testTrie.present, testTrie.children, map[string]*testTrie
+//@   modifies testTrie.present, testTrie.children, map[string]*testTrie, trieLastAdd
+//@   ensures @components trieLastAdd[tt] == splitView(pattern, "/")
 
 // add never replaces an edge that is already there (the patterns below it stay in the trie):
 // whatever is stored into a node's children goes under a key that had no child.
 //@ func (*testTrie).add
 //@   requires tt != nil
-//@   modifies testTrie.present, testTrie.children, map[string]*testTrie
+//@   modifies testTrie.present, testTrie.children, map[string]*testTrie, trieLastAdd
+//@   assume_ensures trieLastAdd[tt] == atpre(view(components)) //# definition of the ghost (no code counterpart)
 //@   ensures len(components) == 0 ==> tt.present
 //@   assert_at "tt.children["#*: !atpre(has(tt.children, first))
 //@   assert_at "child.add(rest)": child != nil && has(tt.children, first) && tt.children[first] == child
